@@ -43,6 +43,8 @@ type H struct {
 	id     int
 	only   int // replay: emit only this id (-1 = all)
 	curDir string
+	kept   []kept // round 3: returned buffers, checked again at the end of the run
+	ktrees []keptTree
 }
 
 const (
@@ -68,8 +70,19 @@ func (h *H) current(d *desc) {
 	os.WriteFile(filepath.Join(h.curDir, "current_case.json"), b, 0o644)
 }
 
-// run executes the implementation entry point for the mode.
-func run(mode string, ts []*abigen.Type, x *abigen.Ext, jsonText string) (out []byte, prefix []byte, cls int, msg string) {
+// encOpts (round 3) lets a stream share implementation objects between cases and hand the
+// implementation a Go value other than x.Go() (typed containers, pointers, named types ...: the
+// model always sees x).
+type encOpts struct {
+	poke   bool               // use the shared objects for a decode and two serializations between the request and its repetition
+	mk     func() interface{} // builds the Go input (default x.Go); called a second time for the snapshot
+	pa     abi.ParameterArray // shared parameter array (default: a fresh one per case)
+	entry  *abi.Entry         // shared entry for the call-data modes
+	always bool               // stateful stream: run the implementation in replay mode even when the case is not the selected one
+}
+
+// runOn executes the implementation entry point for the mode on the given objects.
+func runOn(mode string, pa abi.ParameterArray, e *abi.Entry, goVal interface{}, jsonText string) (out []byte, prefix []byte, cls int, msg string) {
 	var err error
 	panicked := false
 	func() {
@@ -79,16 +92,17 @@ func run(mode string, ts []*abigen.Type, x *abigen.Ext, jsonText string) (out []
 				msg = fmt.Sprintf("panic: %v", r)
 			}
 		}()
-		pa := abigen.Params(ts)
 		switch mode {
 		case modeValues:
-			out, err = pa.EncodeABIDataValues(x.Go())
+			out, err = pa.EncodeABIDataValues(goVal)
 		case modeJSON:
 			out, err = pa.EncodeABIDataJSON([]byte(jsonText))
 		case modeCallV, modeCallJ:
-			e := &abi.Entry{Type: abi.Function, Name: "f", Inputs: pa}
+			if e == nil {
+				e = &abi.Entry{Type: abi.Function, Name: "f", Inputs: pa}
+			}
 			if mode == modeCallV {
-				out, err = e.EncodeCallDataValues(x.Go())
+				out, err = e.EncodeCallDataValues(goVal)
 			} else {
 				out, err = e.EncodeCallDataJSON([]byte(jsonText))
 			}
@@ -117,8 +131,13 @@ func sigOf(ts []*abigen.Type) string {
 // addEnc runs one encode case.  v != nil: the input denotes the well-typed value v (oracle OValue);
 // reject: the input must be refused; neither: model comparison only.
 func (h *H) addEnc(kind, mode string, ts []*abigen.Type, x *abigen.Ext, v *abigen.Value, reject bool, key string) {
+	h.addEncO(kind, mode, ts, x, v, reject, key, encOpts{})
+}
+
+func (h *H) addEncO(kind, mode string, ts []*abigen.Type, x *abigen.Ext, v *abigen.Value, reject bool, key string, o encOpts) {
 	h.id++
-	if h.only >= 0 && h.id != h.only {
+	selected := h.only < 0 || h.id == h.only
+	if !selected && !o.always {
 		return
 	}
 	jsonText := ""
@@ -137,7 +156,20 @@ func (h *H) addEnc(kind, mode string, ts []*abigen.Type, x *abigen.Ext, v *abige
 		d.ABI = ""
 	}
 	h.current(d)
-	out, prefix, cls, msg := run(mode, ts, x, jsonText)
+	mk := o.mk
+	if mk == nil {
+		mk = x.Go
+	}
+	pa := o.pa
+	if pa == nil {
+		pa = abigen.Params(ts)
+	}
+	goVal := mk()
+	out, prefix, cls, msg := runOn(mode, pa, o.entry, goVal, jsonText)
+	h.afterCall(d, mode, pa, o.entry, goVal, mk, jsonText, out, cls, o.poke, len(prefix))
+	if !selected {
+		return
+	}
 	oracle := "ONone"
 	d.Oracle = "none"
 	switch {
@@ -174,9 +206,17 @@ func (h *H) addEnc(kind, mode string, ts []*abigen.Type, x *abigen.Ext, v *abige
 
 // addParse compares the ComponentValue tree built by ParseExternalData.
 func (h *H) addParse(kind string, ts []*abigen.Type, x *abigen.Ext) {
+	h.addParseO(kind, ts, x, nil, false)
+}
+
+func (h *H) addParseO(kind string, ts []*abigen.Type, x *abigen.Ext, pa abi.ParameterArray, always bool) {
 	h.id++
-	if h.only >= 0 && h.id != h.only {
+	selected := h.only < 0 || h.id == h.only
+	if !selected && !always {
 		return
+	}
+	if pa == nil {
+		pa = abigen.Params(ts)
 	}
 	d := &desc{ID: h.id, Kind: kind, Mode: modeParse, Types: sigOf(ts), Input: x.Describe(), Oracle: "none"}
 	h.current(d)
@@ -190,15 +230,20 @@ func (h *H) addParse(kind string, ts []*abigen.Type, x *abigen.Ext) {
 				d.Impl = fmt.Sprintf("panic: %v", r)
 			}
 		}()
-		cvt, err = abigen.Params(ts).ParseExternalData(x.Go())
+		cvt, err = pa.ParseExternalData(x.Go())
 	}()
 	cls := clsOf(err, panicked)
 	tree := "None"
 	if cls == 0 {
+		// printed before the Go-side oracles use the tree
 		tree = "(Some " + abigen.CoqCval(cvt, abigen.Tup(ts...)) + ")"
 		d.Impl = "ok"
+		h.afterParse(d, pa, x.Go, cvt)
 	} else if err != nil {
 		d.Impl = err.Error()
+	}
+	if !selected {
+		return
 	}
 	h.st.Hit("kind:" + kind)
 	h.st.Hit("mode:" + modeParse)
@@ -862,6 +907,23 @@ func main() {
 		h.arity(r, 80)
 		h.fixedPoint(r, 4)
 	}
+	// round 3 streams (appended, so that the case ids of the earlier streams keep their meaning)
+	r3 := cv.NewRand(3)
+	h.hexEdges(r3)
+	h.magnitudes(r3)
+	h.tupleKeys(r3)
+	h.fixedKinds(r3)
+	h.goReprs(r3)
+	h.bigShapes(r3, thorough)
+	var ss []*session
+	if thorough {
+		ss = h.sessions(r3, 200, 12)
+		h.concurrent(r3, ss, 20000)
+	} else {
+		ss = h.sessions(r3, 24, 9)
+		h.concurrent(r3, ss, 2500)
+	}
+	h.finalChecks()
 	if err := h.w.Flush(); err != nil {
 		panic(err)
 	}
